@@ -1,20 +1,20 @@
 SPECIFICATION Spec
 CONSTANTS
  MaxUnits = 3
- LocalNames = {"x"}
+ LocalNames = {"x", "a"}
  FreeNames = {}
  Top = {"b"}
- MaxParams = 0
+ MaxParams = 1
  MaxDecl = 1
  Start <- StartAB
  Cont <- ContABC
  DReserved = {"aa"}
- AllowWith = TRUE
+ AllowWith = FALSE
  AllowVars = FALSE
  MaxUses = 1
- AllowFlat = FALSE
+ AllowFlat = TRUE
  MoveAfterRename = FALSE
  OldWith = FALSE
- RestoreOwn = TRUE
-INVARIANTS FlagAsMeant StackDepth CaptureFree NoCollision PublicUnchanged NoReserved WithOwn WithCross
+ RestoreOwn = FALSE
+INVARIANTS FlagAsMeant StackDepth CaptureFree NoCollision PublicUnchanged NoReserved Emit
 CHECK_DEADLOCK FALSE
